@@ -265,6 +265,14 @@ Inductive stype :=   (* signed data Go types *)
 | TSignedAggregateAndProof | TVersionedSignedAggregateAndProof | TSignedSyncMessage
 | TSyncCommitteeSelection | TSignedSyncContributionAndProof.
 
+(* core.Eth2SignedData (core/eth2signeddata.go): every signed type the decoder can produce except
+   core.Signature.  The receive path (parsigex.handle -> NewEth2Verifier) uses a decoded value by
+   asserting it to this interface with a CHECKED assertion: a value that is not an Eth2SignedData is
+   refused with an error, every other one goes on to VerifyEth2SignedData; no outcome is a panic. *)
+Definition eth2_signed (t : stype) : bool := match t with TSignature => false | _ => true end.
+Inductive vuse := VNotEth2 | VRan.
+Definition verifier_use (t : stype) : vuse := if eth2_signed t then VRan else VNotEth2.
+
 Inductive utype :=   (* unsigned data Go types *)
 | UAttestationData | UVersionedProposal | UVersionedAggregatedAttestation | UAggregatedAttestation
 | USyncContributions | USyncContribution.
